@@ -67,6 +67,8 @@ func (C01) Generate(rng *rand.Rand, tier string, runIdx uint64) simkit.Plan {
 	}
 	p := &Plan{Cfg: Cfg{GCTTL: simkit.Pick(rng, []string{"15m", "30s"}), GCGran: "1s", Followers: genFollowers(rng, 1+rng.IntN(3))}}
 	p.Cfg.Extra = map[string]string{"dualstack": simkit.Pick(rng, []string{"off", "off", "on"})}
+	// the leader also serves reads, the audit replicas never do: serving a read must not change replicated state
+	p.Cfg.Extra["reads"] = simkit.Pick(rng, []string{"off", "on"})
 	for len(p.Steps) < n {
 		if simkit.Chance(rng, 4) {
 			p.Steps = append(p.Steps, g.Macro()...)
@@ -98,6 +100,11 @@ func runLeader(p *Plan, r *simkit.Run, wantDumps bool) *History {
 			h.Dumps = append(h.Dumps, c.L.Dump())
 		}
 	}
+	var battery []Query
+	if p.Cfg.Extra["reads"] == "on" {
+		keys, sessions := planNames(p)
+		battery = Battery(DefaultUniverse(), keys, sessions, BatteryExtra{})
+	}
 	for _, s := range p.Steps {
 		r.Steps++
 		r.Sig(s.Op)
@@ -105,6 +112,10 @@ func runLeader(p *Plan, r *simkit.Run, wantDumps bool) *History {
 		if c.Fatal != nil {
 			h.Fatal = c.Fatal
 			break
+		}
+		if battery != nil {
+			evalAll(battery, c.L.State())
+			r.Hit("probe.leader-served-reads")
 		}
 		if s.Op == "leader.snapshot" {
 			h.SnapPos, h.SnapData = int(c.SnapIndex), c.SnapBytes
